@@ -200,6 +200,15 @@ func (l *Lexer) Next(p []byte) (TokenType, []byte, error) {
 					l.computeAttachmentCRCs,
 				)
 				if err != nil {
+					if errors.Is(err, io.EOF) {
+						// the record (or the file) ended in the middle of the attachment's
+						// fields: that is a truncated record, not the end of the file
+						return TokenError, nil, &ErrTruncatedRecord{
+							opcode:      OpAttachment,
+							expectedLen: recordLen,
+							actualLen:   int(int64(recordLen) - limitReader.N),
+						}
+					}
 					return TokenError, nil, fmt.Errorf("failed to parse attachment: %w", err)
 				}
 				err = l.attachmentCallback(attachmentReader)
